@@ -209,7 +209,7 @@ extern "C" void h_infrat_cmp()
   CHECK(is_positive(a) == (cmp2(a, inf_rational()) > 0) && is_negative(a) == (cmp2(a, inf_rational()) < 0) && is_zero(a) == (cmp2(a, inf_rational()) == 0), "sign predicates");
   WITNESS_POINT();
 }
-// component-wise + - and scalar * / : PARAM(1) = 0 a+b, 1 a-b, 2 a*r, 3 a/r, 4 -a   (integer-valued parts keep the query small;
+// component-wise + - and scalar * / : PARAM(1) = 0 a+b, 1 a-b, 2 a*r, 3 a/r, 4 -a, 5..10 inf_rational op rational/integer (binary and compound), 11..16 rational/integer on the left   (integer-valued parts keep the query small;
 // the rational kernels themselves are covered by h_arith)
 extern "C" void h_infrat_arith()
 {
@@ -225,8 +225,21 @@ extern "C" void h_infrat_arith()
   case 1: z = a - b; y -= b; CHECK(z.rat == rational(a0 - b0) && z.inf == rational(a1 - b1), "inf_rational - is component-wise"); break;
   case 2: z = a * r; y *= r; CHECK(z.rat == rational(a0 * k) && z.inf == rational(a1 * k), "inf_rational * scalar scales both parts"); break;
   case 3: ASSUME(k != 0); z = a / r; y /= r; CHECK(z.rat == rational(a0, k) && z.inf == rational(a1, k), "inf_rational / scalar scales both parts"); break;
-  default: z = -a; y = -y; CHECK(z.rat == rational(-a0) && z.inf == rational(-a1), "unary minus negates both parts"); break;
+  case 4: z = -a; y = -y; CHECK(z.rat == rational(-a0) && z.inf == rational(-a1), "unary minus negates both parts"); break;
+  // mixed forms: inf_rational (op) rational / integer, compound forms, and rational / integer on the LEFT
+  case 5: z = a + r; y += r; CHECK(z.rat == rational(a0 + k) && z.inf == rational(a1), "inf_rational + rational leaves the infinitesimal part unchanged"); break;
+  case 6: z = a - r; y -= r; CHECK(z.rat == rational(a0 - k) && z.inf == rational(a1), "inf_rational - rational leaves the infinitesimal part unchanged"); break;
+  case 7: z = a + k; y += k; CHECK(z.rat == rational(a0 + k) && z.inf == rational(a1), "inf_rational + integer leaves the infinitesimal part unchanged"); break;
+  case 8: z = a - k; y -= k; CHECK(z.rat == rational(a0 - k) && z.inf == rational(a1), "inf_rational - integer leaves the infinitesimal part unchanged"); break;
+  case 9: z = a * k; y *= k; CHECK(z.rat == rational(a0 * k) && z.inf == rational(a1 * k), "inf_rational * integer scales both parts"); break;
+  case 10: ASSUME(k != 0); z = a / k; y /= k; CHECK(z.rat == rational(a0, k) && z.inf == rational(a1, k), "inf_rational / integer scales both parts"); break;
+  case 11: z = r + a; y = a + r; CHECK(z.rat == rational(k + a0) && z.inf == rational(a1), "rational + inf_rational"); break;
+  case 12: z = r - a; y = -(a - r); CHECK(z.rat == rational(k - a0) && z.inf == rational(-a1), "rational - inf_rational negates the infinitesimal part"); break;
+  case 13: z = r * a; y = a * r; CHECK(z.rat == rational(k * a0) && z.inf == rational(k * a1), "rational * inf_rational scales both parts"); break;
+  case 14: z = k + a; y = a + k; CHECK(z.rat == rational(k + a0) && z.inf == rational(a1), "integer + inf_rational"); break;
+  case 15: z = k - a; y = -(a - k); CHECK(z.rat == rational(k - a0) && z.inf == rational(-a1), "integer - inf_rational negates the infinitesimal part"); break;
+  default: z = k * a; y = a * k; CHECK(z.rat == rational(k * a0) && z.inf == rational(k * a1), "integer * inf_rational scales both parts"); break;
   }
-  CHECK(y == z, "compound form agrees with the binary form");
+  CHECK(y == z, "compound / mirrored form agrees with the binary form");
   WITNESS_POINT();
 }
